@@ -199,6 +199,13 @@ def sepRP2 (A B : RP2) : Rat :=
   if coresDisjoint2 A.vs B.vs then rsqrt (coreDist2 A.vs B.vs) - A.r - B.r
   else -(rsqrt (coreDepthSq2 A.vs B.vs) + A.r + B.r)
 
+/-- rounded shapes whose cores touch (core distance or core depth below `1e-9`): the boundary of the rounded
+configuration-space obstacle nearest to the origin is an arc CENTRED at the origin, so the minimising direction is not
+unique (the configuration on which EPA stops at its iteration cap) -/
+def roundTouching2 (A B : RP2) : Bool :=
+  A.r + B.r > 0 &&
+    (if coresDisjoint2 A.vs B.vs then coreDist2 A.vs B.vs else coreDepthSq2 A.vs B.vs) ≤ 1 / 1000000000000000000
+
 /-- overlap of the two shapes along the unit direction `n` (how far shape 2 must move along `+n` to clear shape 1) -/
 def overlapAlong2 (A B : RP2) (n : V2 Rat) : Rat :=
   let (_, a1) := projRange2 A.vs n; let (b0, _) := projRange2 B.vs n
@@ -430,6 +437,12 @@ def sepRP3 (A : RP3 Rat) (Af : RP3 Float) (B : RP3 Rat) (Bf : RP3 Float) : Rat :
   let d2 := featureDist3 A Af B Bf
   if d2 == 0 || crossing3 Af Bf then -(rsqrt (coreDepthSq3 A B) + A.r + B.r)
   else rsqrt d2 - A.r - B.r
+
+/-- 3-D version of `roundTouching2` -/
+def roundTouching3 (A : RP3 Rat) (Af : RP3 Float) (B : RP3 Rat) (Bf : RP3 Float) : Bool :=
+  A.r + B.r > 0 &&
+    (let d2 := featureDist3 A Af B Bf
+     (if d2 == 0 || crossing3 Af Bf then coreDepthSq3 A B else d2) ≤ 1 / 1000000000000000000)
 
 def overlapAlong3 (A B : RP3 Rat) (n : V3 Rat) : Rat :=
   let (_, a1) := projRange3 A.vs n; let (b0, _) := projRange3 B.vs n
